@@ -9,6 +9,7 @@ import (
 	"io"
 	"net"
 	"runtime/debug"
+	"strings"
 	"sync"
 	"sync/atomic"
 	"time"
@@ -63,6 +64,7 @@ type proxyTrace struct {
 	Returned bool       `json:"returned"`
 	RetMs    int        `json:"retMs"`
 	Err      string     `json:"err"`
+	DialErr  bool       `json:"dialErr"` // the handler returned because a dial failed
 }
 
 // upstream u's bytes carry u in the high bit so the client can attribute interleaved bytes
@@ -265,12 +267,17 @@ func runProxy(sc proxyScen, idx int) (*proxyTrace, error) {
 	}
 	var h *l4proxy.Handler
 	var compiled layer4.Handler
-	if sc.Via == "route" {
+	if sc.Via == "route" || sc.Via == "route2" {
 		hj := map[string]any{"handler": "proxy"}
 		for k, v := range hcfg {
 			hj[k] = v
 		}
-		raw, _ := json.Marshal([]map[string]any{{"match": []map[string]any{{"verif_m0": map[string]any{"at": 10, "v": "Y", "w": "Y"}}}, "handle": []map[string]any{hj}}})
+		routes := []map[string]any{{"match": []map[string]any{{"verif_m0": map[string]any{"at": 10, "v": "Y", "w": "Y"}}}, "handle": []map[string]any{hj}}}
+		if sc.Via == "route2" {
+			// two-stage routing: a matched non-terminal route first, then the proxy's route, which needs more bytes
+			routes = append([]map[string]any{{"match": []map[string]any{{"verif_m1": map[string]any{"at": 2, "v": "Y", "w": "Y"}}}, "handle": []map[string]any{{"handler": "verif_h", "k": "pass"}}}}, routes...)
+		}
+		raw, _ := json.Marshal(routes)
 		var rl layer4.RouteList
 		if err := json.Unmarshal(raw, &rl); err != nil {
 			return nil, err
@@ -282,7 +289,11 @@ func runProxy(sc proxyScen, idx int) (*proxyTrace, error) {
 		if err := rl.Provision(ctx); err != nil {
 			return nil, err
 		}
-		compiled = rl.Compile(zap.NewNop(), 5*time.Second, layer4.HandlerFunc(func(*layer4.Connection) error { return errors.New("fell through to the fallback") }))
+		mt := 5 * time.Second
+		if sc.Via == "route2" {
+			mt = 300 * time.Millisecond // the client keeps sending after this has long passed
+		}
+		compiled = rl.Compile(zap.NewNop(), mt, layer4.HandlerFunc(func(*layer4.Connection) error { return errors.New("fell through to the fallback") }))
 	} else {
 		h = new(l4proxy.Handler)
 		cfg, _ := json.Marshal(hcfg)
@@ -385,7 +396,7 @@ func runProxy(sc proxyScen, idx int) (*proxyTrace, error) {
 	go func() {
 		defer close(writerDone)
 		rest := cstream[pre:]
-		if sc.Via == "route" && len(rest) > 4 {
+		if (sc.Via == "route" || sc.Via == "route2") && len(rest) > 4 {
 			// the first segment ends inside the bytes the route's matcher needs
 			n, _ := cc.Write(rest[:4])
 			csent.Add(int64(n))
@@ -395,6 +406,10 @@ func runProxy(sc proxyScen, idx int) (*proxyTrace, error) {
 			n, _ = cc.Write(rest[:8])
 			csent.Add(int64(n))
 			rest = rest[n:]
+			if sc.Via == "route2" {
+				// the rest follows only after the matching timeout has passed: it no longer applies to a matched route
+				time.Sleep(450 * time.Millisecond)
+			}
 		}
 		switch sc.Order {
 		case "upstream_first":
@@ -424,6 +439,7 @@ func runProxy(sc proxyScen, idx int) (*proxyTrace, error) {
 		tr.Returned = true
 		if err != nil {
 			tr.Err = err.Error()
+			tr.DialErr = strings.HasPrefix(tr.Err, "dial ")
 		}
 	case <-time.After(15 * time.Second):
 	}
